@@ -143,7 +143,7 @@ func genConfigUse(repo, out string) error {
 			return false
 		})
 	}
-	type row struct{ typ, field, fam, where, pat string }
+	type row struct{ typ, field, fam, where, pat, guard string }
 	var uses, validates []row
 	for _, fn := range p.sortedFiles() {
 		for _, d := range p.files[fn].Decls {
@@ -213,7 +213,42 @@ func genConfigUse(repo, out string) error {
 				}
 				return true
 			})
+			var stack []ast.Node
+			// the enclosing `if` conditions of a call inside this function, innermost first, joined by " ;; " ("" = reached on
+			// every path through the statements around it; loops over a list field do not count as conditions)
+			guardOf := func() string {
+				var gs []string
+				for i := len(stack) - 2; i >= 0; i-- {
+					switch g := stack[i].(type) {
+					case *ast.FuncLit:
+						return strings.Join(gs, " ;; ")
+					case *ast.IfStmt:
+						// only when the call sits in the body (or else branch), not in the condition / init of this if itself
+						inInit := false
+						if g.Init != nil {
+							ast.Inspect(g.Init, func(m ast.Node) bool {
+								if m == stack[len(stack)-1] {
+									inInit = true
+								}
+								return true
+							})
+						}
+						if inInit {
+							continue
+						}
+						gs = append(gs, p.src(g.Cond))
+					case *ast.CaseClause:
+						gs = append(gs, "case")
+					}
+				}
+				return strings.Join(gs, " ;; ")
+			}
 			ast.Inspect(fd.Body, func(x ast.Node) bool {
+				if x == nil {
+					stack = stack[:len(stack)-1]
+					return true
+				}
+				stack = append(stack, x)
 				ce, ok := x.(*ast.CallExpr)
 				if !ok || len(ce.Args) == 0 {
 					return true
@@ -259,7 +294,7 @@ func genConfigUse(repo, out string) error {
 						}
 					}
 				}
-				r := row{typ: typ, field: field, fam: fam, where: fn + ":" + fd.Name.Name, pat: pat}
+				r := row{typ: typ, field: field, fam: fam, where: fn + ":" + fd.Name.Name, pat: pat, guard: strings.ReplaceAll(guardOf(), fieldSrc, "$")}
 				switch {
 				case isValidate && !dropped[ce] && !must:
 					validates = append(validates, r)
@@ -279,14 +314,22 @@ func genConfigUse(repo, out string) error {
 		})
 		var ls []string
 		for _, r := range rs {
-			ls = append(ls, fmt.Sprintf("  { typ := %s, field := %s, fam := %s, site := %s, pat := %s }", leanStr(r.typ), leanStr(r.field), leanStr(r.fam), leanStr(r.where), leanStr(r.pat)))
+			ls = append(ls, fmt.Sprintf("  { typ := %s, field := %s, fam := %s, site := %s, pat := %s, guards := %s }", leanStr(r.typ), leanStr(r.field), leanStr(r.fam), leanStr(r.where), leanStr(r.pat), leanGuards(r.guard)))
 		}
 		return "[\n" + strings.Join(ls, ",\n") + "\n]"
 	}
 	var sb strings.Builder
-	sb.WriteString("namespace Pint.Gen.ConfigUse\n\nstructure Row where\n  typ : String\n  field : String\n  fam : String\n  site : String\n  pat : String\n  deriving Repr, DecidableEq\n\n")
+	sb.WriteString("namespace Pint.Gen.ConfigUse\n\nstructure Row where\n  typ : String\n  field : String\n  fam : String\n  site : String\n  pat : String\n  guards : List String\n  deriving Repr, DecidableEq\n\n")
 	sb.WriteString("/-- constructor calls whose error is dropped after the configuration was accepted -/\ndef uses : List Row := " + render(uses) + "\n\n")
 	sb.WriteString("/-- constructor calls in validate methods with the error returned -/\ndef validates : List Row := " + render(validates) + "\n\n")
 	sb.WriteString("end Pint.Gen.ConfigUse\n")
 	return writeGen(out, "ConfigUse.lean", sb.String())
+}
+
+// leanGuards renders the " ;; "-joined guard conditions as a Lean list of strings
+func leanGuards(g string) string {
+	if g == "" {
+		return "[]"
+	}
+	return leanStrList(strings.Split(g, " ;; "))
 }
